@@ -329,6 +329,10 @@ def replay_state(st: dict, out: dict, want_event: bool, want_rejects: bool, want
     _rejects_and_event(st, out, w, rel, real_tree, same_shape, want_event, want_rejects, case, V, cnt)
 
 
+def _last_is_join(st) -> bool:
+    return bool(st["final"] and st["hist"] and st["hist"][-1]["f"] in ("join", "pjoinl"))
+
+
 def _rejects_and_event(st, out, w, rel, real_tree, same_shape, want_event, want_rejects, case, V, cnt):
     # ---- refused requests
     for rj in (st["rejects"] if want_rejects else ()):
@@ -350,7 +354,8 @@ def _rejects_and_event(st, out, w, rel, real_tree, same_shape, want_event, want_
     if want_event or not same_shape:
         out["events"].append({"tree": full_tree(rel), "env": {"L": st["l1"], "T2": st["t2"]},
                               "rows": st["rows"], "bag": not st["ldet"],
-                              "checks": ["wf", "meta"] + ([] if st["kf2"] else ["denbag", "denlist"]),
+                              # after a final join only the multiset is promised (MultiEngine!ListPromised)
+                              "checks": ["wf", "meta"] + ([] if st["kf2"] else ["denbag"] if _last_is_join(st) else ["denbag", "denlist"]),
                               "case": case})
 
 
